@@ -15,7 +15,7 @@ func errorsIs(err, target error) bool {
 }
 
 //verif:harness C18 quick n=0..5
-//verif:harness C18 thorough n=6..7
+//verif:harness C18 thorough n=6..6
 func H_C18_totalSizeText(n int) {
 	vMergeOutcomes()
 	in := vBytes("in", n)
